@@ -692,6 +692,7 @@ class RTCSctpTransport(AsyncIOEventEmitter):
         self._t2_failures = 0
         self._t2_handle: Optional[asyncio.TimerHandle] = None
         self._t3_handle: Optional[asyncio.TimerHandle] = None
+        self._reconfig_handle: Optional[asyncio.TimerHandle] = None
 
         # data channels
         self._data_channel_id: Optional[int] = None
@@ -1332,6 +1333,7 @@ class RTCSctpTransport(AsyncIOEventEmitter):
                     self._data_channel_closed(stream_id)
 
                 self._reconfig_request = None
+                self._reconfig_timer_cancel()
                 await self._transmit_reconfig()
 
     async def _send(
@@ -1463,6 +1465,7 @@ class RTCSctpTransport(AsyncIOEventEmitter):
             self._t1_cancel()
             self._t2_cancel()
             self._t3_cancel()
+            self._reconfig_timer_cancel()
             self.__state = "closed"
 
             # close data channels
@@ -1568,6 +1571,27 @@ class RTCSctpTransport(AsyncIOEventEmitter):
             self._t3_handle.cancel()
             self._t3_handle = None
 
+    def _reconfig_timer_cancel(self) -> None:
+        if self._reconfig_handle is not None:
+            self._reconfig_handle.cancel()
+            self._reconfig_handle = None
+
+    def _reconfig_timer_expired(self) -> None:
+        self._reconfig_handle = None
+        if (
+            self._reconfig_request is not None
+            and self._association_state == self.State.ESTABLISHED
+        ):
+            # the request or its response was lost, send the request again
+            asyncio.ensure_future(self._send_reconfig_param(self._reconfig_request))
+            self._reconfig_timer_start()
+
+    def _reconfig_timer_start(self) -> None:
+        self._reconfig_timer_cancel()
+        self._reconfig_handle = self._loop.call_later(
+            self._rto, self._reconfig_timer_expired
+        )
+
     async def _transmit(self) -> None:
         """
         Transmit outbound data.
@@ -1639,6 +1663,7 @@ class RTCSctpTransport(AsyncIOEventEmitter):
             self._reconfig_request_seq = tsn_plus_one(self._reconfig_request_seq)
 
             await self._send_reconfig_param(param)
+            self._reconfig_timer_start()
 
     def _update_advanced_peer_ack_point(self) -> None:
         """
